@@ -630,6 +630,9 @@ func TestDriver(t *testing.T) {
 				}
 			}
 		}
+		if mode == "ledger" {
+			h.checkpointTwin()
+		}
 		if mode == "durable" {
 			// final drain: every block once more, parents first (orphans offered too early are known now)
 			var ids []int
@@ -668,3 +671,75 @@ func TestDriver(t *testing.T) {
 	_ = sort.Ints
 }
 
+
+
+// checkpointTwin covers C02's "stores initialised ... (above the require height) from a v2
+// checkpoint": a store created with NewDBStoreAtCheckpoint at a valid v2 block X above the require
+// height and fed X's descendants must report, for every block it adopts, the same state as the
+// linear ledger (and therefore as a node synced from genesis), follow the same forks, and serve
+// the update stream from X.
+func (h *history) checkpointTwin() {
+	t := h.t
+	req := t.W.N.HardforkV2.RequireHeight
+	var cands []*mat.Node
+	for _, nd := range t.Nodes {
+		if nd.ValidChain && nd.Block.V2 != nil && nd.Height > req && nd.Parent != 0 {
+			cands = append(cands, nd)
+		}
+	}
+	if len(cands) == 0 {
+		return
+	}
+	x := cands[h.rng.Intn(len(cands))]
+	parent := t.Node(x.Parent)
+	db := chain.NewMemDB()
+	store, cs, err := chain.NewDBStoreAtCheckpoint(db, parent.L.CS, x.Block, nil)
+	if err != nil {
+		h.mismatch("driver:c02:checkpoint:init", fmt.Sprintf("NewDBStoreAtCheckpoint at block %d: %v", x.ID, err))
+		return
+	}
+	if !bytes.Equal(mat.StateBytes(cs), mat.StateBytes(x.L.CS)) {
+		h.mismatch("driver:c02:checkpoint:state", fmt.Sprintf("checkpoint store reports a tip state for block %d that differs from the linear ledger's", x.ID))
+		return
+	}
+	cm := chain.NewManager(store, cs)
+	inSub := map[int]bool{x.ID: true}
+	for _, nd := range t.Nodes {
+		if inSub[nd.Parent] {
+			inSub[nd.ID] = true
+			func() {
+				defer func() {
+					if r := recover(); r != nil {
+						h.mismatch("driver:c02:checkpoint:panic", fmt.Sprintf("checkpoint store panicked on block %d: %v", nd.ID, r))
+					}
+				}()
+				cm.AddBlocks([]types.Block{nd.Block})
+			}()
+			tip := h.ids[cm.Tip().ID]
+			if tn := t.Node(max(tip, 1)); tip == 0 || !tn.ValidChain {
+				h.mismatch("driver:c02:checkpoint:invalid-tip", fmt.Sprintf("checkpoint store adopted block %d", tip))
+				return
+			} else if !bytes.Equal(mat.StateBytes(cm.TipState()), mat.StateBytes(tn.L.CS)) {
+				h.mismatch("driver:c02:checkpoint:state", fmt.Sprintf("checkpoint store (from block %d) reports a state for tip %d that differs from the linear ledger's", x.ID, tip))
+				return
+			}
+		}
+	}
+	// the update stream from the checkpoint index leads to the tip along the best chain
+	idx := types.ChainIndex{Height: x.Height, ID: x.Block.ID()}
+	for i := 0; i < 200 && idx != cm.Tip(); i++ {
+		rus, aus, err := cm.UpdatesSince(idx, 1+h.rng.Intn(4))
+		if err != nil || len(rus) != 0 {
+			h.mismatch("driver:c02:checkpoint:updates", fmt.Sprintf("UpdatesSince from the checkpoint %d: %d reverts, err %v", x.ID, len(rus), err))
+			return
+		}
+		for _, au := range aus {
+			if au.Block.ParentID != idx.ID {
+				h.mismatch("driver:c02:checkpoint:updates", "update stream from the checkpoint is not contiguous")
+				return
+			}
+			idx = au.State.Index
+		}
+	}
+	h.res.Count("checkpoint_stores", 1)
+}
